@@ -92,6 +92,7 @@ func runC10(a *A) {
 	a.Rule("locks/expiry-decision-atomic", 2, func() { a.ruleExpiryDecisionAtomic() })
 	a.Rule("locks/clock-read-under-lock", 1, func() { a.ruleClockReadUnderLock(a.Named("window", "SessionWindow")) })
 	a.Rule("flow/evicted-result-counted", 1, func() { a.ruleEvictedResultCounted(a.Named("window", "SessionWindow")) })
+	a.Rule("shape/session-buffer-own", 2, func() { a.ruleSessionBufferOwn() })
 }
 
 // ruleGapSplit: in Add, the row may be appended to the session found in sessionMap only when
@@ -426,6 +427,154 @@ func (a *A) ruleExpiryDecisionAtomic() int {
 	}
 	if n == 0 {
 		a.anchorFail("no method of SessionWindow calls a function that decides session expiry")
+	}
+	return n
+}
+
+// ruleSessionBufferOwn: "each event is in exactly one session" needs every session to own its row
+// buffer: a fired session kept for late data (triggeredSessions) and a parked one still refer to
+// theirs. Decided in two steps. (1) Every value stored into session.data is a fresh slice (a literal,
+// make, nil) or the result of appending to that same session's buffer: then nothing can be shared.
+// (2) Otherwise buffers are recycled (a free list): at every place where a session's buffer is put
+// into a field of the window, that session must not also be retained - no feasible path in the
+// function connects the instruction that stores the session into sessionInfo / triggeredSessions /
+// sessionMap with the one that releases its buffer. (A free list fed only with buffers of sessions
+// that are gone is fine; one that is fed with the buffer of a session kept for late rows hands that
+// session's rows to the next session that is opened.)
+func (a *A) ruleSessionBufferOwn() int {
+	S := a.Named("window", "session")
+	W := a.Named("window", "SessionWindow")
+	dataF := a.FieldOf(S, "data")
+	n := 0
+	recycled := false
+	for _, fn := range a.ModFuncs {
+		if ssaPkgOf(fn) != a.Pkg("window") || fn.Blocks == nil {
+			continue
+		}
+		for _, st := range storesToField(fn, dataF) {
+			n++
+			fa := st.Addr.(*ssa.FieldAddr)
+			foreign := ""
+			for _, l := range phiLeaves(st.Val) {
+				switch x := l.(type) {
+				case *ssa.MakeSlice:
+					continue
+				case *ssa.Const:
+					if x.Value == nil {
+						continue
+					}
+				case *ssa.Slice:
+					if _, isAlloc := x.X.(*ssa.Alloc); isAlloc {
+						continue // composite literal []types.Row{...}
+					}
+				case *ssa.Call:
+					if cc, isAp := isBuiltinCall(x, "append"); isAp {
+						// growth of this very session's buffer
+						if t := TermOf(cc.Args[0], nil); t.Kind == "field" && t.Field == dataF && t.Base != nil && t.Base.String() == TermOf(fa.X, nil).String() {
+							continue
+						}
+						if _, isMS := cc.Args[0].(*ssa.MakeSlice); isMS {
+							continue
+						}
+					}
+				}
+				foreign = TermOf(l, nil).String()
+			}
+			if foreign != "" {
+				recycled = true
+				a.Ok(fmt.Sprintf("session.data<-%s", fname(fn)), st.Pos(), "the session's row buffer is taken from %s: buffers are recycled, the release sites are checked", foreign).Trivial = true
+			} else {
+				a.Ok(fmt.Sprintf("session.data<-%s", fname(fn)), st.Pos(), "the session's row buffer is a fresh slice or grows from its own")
+			}
+		}
+	}
+	if n == 0 {
+		a.anchorFail("no store to window.session.data found")
+	}
+	if !recycled {
+		return n
+	}
+	// (2) release sites: a value derived from <s>.data stored into / appended to a field of the window
+	derivedFromData := func(v ssa.Value) ssa.Value { // returns the *session value s, or nil
+		for i := 0; i < 6; i++ {
+			switch x := v.(type) {
+			case *ssa.Slice:
+				v = x.X
+				continue
+			case *ssa.UnOp:
+				if x.Op == token.MUL {
+					if fa, ok := x.X.(*ssa.FieldAddr); ok && fieldVarOf(fa) == dataF {
+						return fa.X
+					}
+				}
+			}
+			return nil
+		}
+		return nil
+	}
+	releases := 0
+	for _, fn := range a.ModFuncs {
+		if ssaPkgOf(fn) != a.Pkg("window") || fn.Blocks == nil {
+			continue
+		}
+		fn := fn
+		allInstrs(fn, func(in ssa.Instruction) {
+			var sess ssa.Value
+			switch x := in.(type) {
+			case *ssa.Store:
+				if fa, ok := x.Addr.(*ssa.FieldAddr); ok && isNamedType(derefT(fa.X.Type()), W.Obj().Pkg().Path(), W.Obj().Name()) {
+					for _, l := range phiLeaves(x.Val) {
+						if c, isCall := l.(*ssa.Call); isCall {
+							if cc, isAp := isBuiltinCall(c, "append"); isAp {
+								for _, e := range appendedElems(cc) {
+									if s := derivedFromData(e); s != nil {
+										sess = s
+									}
+								}
+							}
+						}
+						if s := derivedFromData(l); s != nil {
+							sess = s
+						}
+					}
+				}
+			}
+			if sess == nil {
+				return
+			}
+			releases++
+			// retain sites of the same session value in this function
+			sessT := TermOf(sess, nil).String()
+			var retains []ssa.Instruction
+			allInstrs(fn, func(y ssa.Instruction) {
+				switch r := y.(type) {
+				case *ssa.Store:
+					if TermOf(r.Val, nil).String() == sessT && r.Val.Type() == sess.Type() {
+						if fa, ok := r.Addr.(*ssa.FieldAddr); ok && fieldVarOf(fa) != nil && fieldVarOf(fa).Name() == "session" {
+							retains = append(retains, y)
+						}
+					}
+				case *ssa.MapUpdate:
+					if TermOf(r.Value, nil).String() == sessT && r.Value.Type() == sess.Type() {
+						retains = append(retains, y)
+					}
+				}
+			})
+			bad := ""
+			for _, r := range retains {
+				r := r
+				if pathFromTo(r, func(x ssa.Instruction) bool { return x == in }, nil, nil) ||
+					pathFromTo(in, func(x ssa.Instruction) bool { return x == r }, nil, nil) {
+					bad = a.pos(r.Pos())
+				}
+			}
+			a.Check(bad == "", fmt.Sprintf("release(session.data)@%s", fname(fn)), in.Pos(),
+				"the buffer put on the free list belongs to a session that is not retained on any path",
+				"the row buffer of a session is released for reuse although the same session is retained (stored at "+bad+", reachable on one path with the release): the next session opened overwrites the rows of a session that can still be re-delivered - events appear in a session they do not belong to and vanish from their own")
+		})
+	}
+	if releases == 0 {
+		a.Und("release(session.data)", token.NoPos, "session buffers are taken from a shared place but no release site was recognised")
 	}
 	return n
 }
